@@ -361,11 +361,16 @@ func c20Gen(t *rapid.T) C20Case {
 				}
 				san := refKeyToLabel(ok)
 				// Two keys of one container with the same image: which wins is unspecified.
-				if used[san] || builtinContainerLabels[san] {
+				// (another container may carry the very key of the case, also when it shadows a
+				// built-in label: then both carry k=v and both are selected)
+				if used[san] || (builtinContainerLabels[san] && ok != k) {
 					continue
 				}
 				used[san] = true
 				labels[ok] = gen.BS(c20GenValue(t))
+				if ok == k && rapid.Bool().Draw(t, "same-value-too") {
+					labels[ok] = gen.BS(c.Value)
+				}
 			}
 			c.Other = append(c.Other, labels)
 		}
